@@ -99,6 +99,7 @@ type State struct {
 	races       []string
 	timerByPtr  map[*Value]*Timer
 	ptrIDs      map[interface{}]uint64
+	lenientFmt  int
 	startThread func(t *Thread, body func())
 }
 
